@@ -16,6 +16,7 @@ Any number of classes `K = n + 1`, of trees, of leaves; any real leaf outputs (h
 -/
 import Xrfmv.Lemmas.Codec
 import Xrfmv.Props.C09
+import Mathlib.Topology.Algebra.Order.Field
 
 namespace Xrfmv.Props.C12
 open Xrfmv.Codec Finset BigOperators
@@ -210,5 +211,56 @@ theorem predict_proba_valid_built (ε : ℝ) (h0 : 0 < ε) (h1 : ε < 1) {m K T 
   rcases hb t with ⟨raw, h⟩ | ⟨lps, hne, keep, cap, perm, hs, raws, h⟩
   · rw [h]; trivial
   · rw [h]; exact soft_tree_valid lps hne keep cap perm hs raws
+
+section limit
+open Filter Topology
+
+/-- clamp–renormalise is continuous (the divisor is at least `K·min(ε, 1−ε) > 0`). -/
+theorem clampNorm_continuous {K : ℕ} (hK : 0 < K) {ε : ℝ} (h0 : 0 < ε) (h1 : ε < 1) :
+    Continuous fun p : Vec ℝ K => clampNorm ε p := by
+  have hc : ∀ i : Fin K, Continuous fun p : Vec ℝ K => clampVec ε p i := fun i => by
+    unfold clampVec clamp
+    exact ((continuous_apply i).max continuous_const).min continuous_const
+  refine continuous_pi fun i => ?_
+  simp only [clampNorm, vsum_eq_sum]
+  refine (hc i).div (continuous_finsetSum _ fun j _ => hc j) fun p => ?_
+  exact ne_of_gt (sum_clampVec_pos hK h0 h1 p)
+
+/-- the prevalence-mode leaf decoder is continuous in the raw leaf output -/
+theorem probasPrevInv_continuous {ε : ℝ} (h0 : 0 < ε) (h1 : ε < 1) (invA : Mat ℝ (n + 1) (n + 1)) :
+    Continuous fun v : Vec ℝ n => probasPrevInv ε invA v := by
+  have hd : Continuous fun v : Vec ℝ n => decodeInv invA v := by
+    refine continuous_pi fun i => ?_
+    simp only [decodeInv, mulVec, vsum_eq_sum]
+    refine continuous_finsetSum _ fun j _ => continuous_const.mul ?_
+    unfold aug
+    split
+    · exact continuous_apply _
+    · exact continuous_const
+  exact (clampNorm_continuous (Nat.succ_pos n) h0 h1).comp hd
+
+/-- the raw output of a leaf is continuous in its kernel values -/
+theorem leafOut_continuous {N m : ℕ} (W : Mat ℝ N m) : Continuous fun kv : Vec ℝ N => leafOut kv W := by
+  refine continuous_pi fun j => ?_
+  simp only [leafOut, vsum_eq_sum]
+  exact continuous_finsetSum _ fun c _ => (continuous_apply c).mul continuous_const
+
+/-- **C12 far rows, the limit at `ℝ`** (the exact-underflow statement is `far_is_prior`): as the kernel
+values of a leaf tend to 0 — the query row moves away from all its centres, `Props.C05.lap_tendsto_zero` —
+its class probabilities in prevalence mode tend to the clamped-renormalised training frequencies. -/
+theorem far_limit_prior (prior : Vec ℝ (n + 1)) (hprior : IsProb prior) (Q : Mat ℝ (n + 1) n) (hQ : QContract Q)
+    (invA : Mat ℝ (n + 1) (n + 1))
+    (hinv : Matrix.of (augA prior Q) * Matrix.of invA = 1 ∨ Matrix.of invA * Matrix.of (augA prior Q) = 1)
+    {ε : ℝ} (h0 : 0 < ε) (h1 : ε < 1) {N : ℕ} (W : Mat ℝ N n) :
+    Tendsto (fun kv : Vec ℝ N => probasPrevInv ε invA (leafOut kv W)) (𝓝 0) (𝓝 (clampNorm ε prior)) := by
+  have hc : Continuous fun kv : Vec ℝ N => probasPrevInv ε invA (leafOut kv W) :=
+    (probasPrevInv_continuous h0 h1 invA).comp (leafOut_continuous W)
+  have hz : probasPrevInv ε invA (leafOut (0 : Vec ℝ N) W) = clampNorm ε prior := by
+    rw [leafOut_zero (0 : Vec ℝ N) W fun _ => rfl]
+    simp only [probasPrevInv]
+    rw [inv_unique hQ.toQC prior hprior.2 invA hinv, decodeInv_explicitInv, decodeExplicit_zero]
+  simpa only [hz] using hc.tendsto 0
+
+end limit
 
 end Xrfmv.Props.C12
